@@ -16,7 +16,9 @@ package driver
 
 import (
 	"context"
+	"encoding/binary"
 	"fmt"
+	"io"
 	"math/rand"
 	"net"
 	"strconv"
@@ -26,17 +28,123 @@ import (
 	"testing"
 	"time"
 
+	"github.com/edgexfoundry/device-sdk-go/v4/pkg/interfaces"
 	dsModels "github.com/edgexfoundry/device-sdk-go/v4/pkg/models"
+	edgexErr "github.com/edgexfoundry/go-mod-core-contracts/v4/errors"
 	"github.com/edgexfoundry/go-mod-core-contracts/v4/models"
 
 	"github.com/edgexfoundry/device-rfid-llrp-go/internal/retry"
 	"github.com/edgexfoundry/device-rfid-llrp-go/pkg/llrp"
 )
 
+// ---- own scripted reader (frames built and parsed here; only the RUNNERS of c15/c13 are reused)
+
+func c20Frame(typ int, id uint32, payload []byte) []byte {
+	b := make([]byte, 10+len(payload))
+	binary.BigEndian.PutUint16(b[0:2], 1<<10|uint16(typ&0x3ff))
+	binary.BigEndian.PutUint32(b[2:6], uint32(10+len(payload)))
+	binary.BigEndian.PutUint32(b[6:10], id)
+	copy(b[10:], payload)
+	return b
+}
+
+func c20Status(code int) []byte { return []byte{0x01, 0x1F, 0, 8, byte(code >> 8), byte(code), 0, 0} }
+
+// ReaderEventNotificationData{UTCTimestamp, ConnectionAttemptEvent(success)}
+var c20ConnEvent = []byte{0x00, 0xF6, 0, 22, 0x00, 0x80, 0, 12, 0, 5, 0xA7, 0x38, 0x13, 0x3C, 0x2C, 0x9E, 0x01, 0x00, 0, 6, 0, 0}
+
+type c20Reader struct {
+	ln    net.Listener
+	wmu   sync.Mutex
+	conn  net.Conn
+	ready chan struct{}
+	once  sync.Once
+	acks  atomic.Int64
+	conns atomic.Int64
+}
+
+func (rd *c20Reader) write(b []byte) error {
+	rd.wmu.Lock()
+	defer rd.wmu.Unlock()
+	if rd.conn == nil {
+		return fmt.Errorf("not connected")
+	}
+	_, err := rd.conn.Write(b)
+	return err
+}
+
+func (rd *c20Reader) serve() {
+	hdr := make([]byte, 10)
+	for {
+		c, err := rd.ln.Accept()
+		if err != nil {
+			return
+		}
+		rd.conns.Add(1)
+		rd.wmu.Lock()
+		rd.conn = c
+		rd.wmu.Unlock()
+		rd.write(c20Frame(63, 1, c20ConnEvent))
+		for {
+			if _, err := io.ReadFull(c, hdr); err != nil {
+				break
+			}
+			typ := int(binary.BigEndian.Uint16(hdr[0:2]) & 0x3ff)
+			n := binary.BigEndian.Uint32(hdr[2:6])
+			id := binary.BigEndian.Uint32(hdr[6:10])
+			if n < 10 || n > 1<<20 {
+				break
+			}
+			if _, err := io.CopyN(io.Discard, c, int64(n-10)); err != nil {
+				break
+			}
+			switch typ {
+			case 46: // GetSupportedVersion
+				rd.write(c20Frame(56, id, append([]byte{2 << 5, 2 << 5}, c20Status(0)...)))
+			case 3: // SetReaderConfig
+				rd.write(c20Frame(13, id, c20Status(0)))
+				rd.once.Do(func() { close(rd.ready) })
+			case 72: // KeepAliveAck
+				rd.acks.Add(1)
+			case 14: // CloseConnection
+				rd.write(c20Frame(4, id, c20Status(0)))
+				time.Sleep(2 * time.Millisecond)
+				c.Close()
+			case 2: // GetReaderConfig: answer late, so that other traffic meets a command in flight
+				go func(id uint32) {
+					time.Sleep(4 * time.Millisecond)
+					rd.write(c20Frame(12, id, c20Status(0)))
+				}(id)
+			default:
+				rd.write(c20Frame(100, id, c20Status(109)))
+			}
+		}
+		c.Close()
+	}
+}
+
+type c20SDK struct{ interfaces.DeviceServiceSDK }
+
+func (c20SDK) UpdateDeviceOperatingState(string, models.OperatingState) error { return nil }
+
+type c20Logger struct{}
+
+func (c20Logger) SetLogLevel(string) edgexErr.EdgeX { return nil }
+func (c20Logger) LogLevel() string                  { return "ERROR" }
+func (c20Logger) Debug(string, ...interface{})      {}
+func (c20Logger) Error(string, ...interface{})      {}
+func (c20Logger) Info(string, ...interface{})       {}
+func (c20Logger) Trace(string, ...interface{})      {}
+func (c20Logger) Warn(string, ...interface{})       {}
+func (c20Logger) Debugf(string, ...interface{})     {}
+func (c20Logger) Errorf(string, ...interface{})     {}
+func (c20Logger) Infof(string, ...interface{})      {}
+func (c20Logger) Tracef(string, ...interface{})     {}
+func (c20Logger) Warnf(string, ...interface{})      {}
+
 func c20Dev(id string, seed int64, ncallers, rounds int) string {
-	var errs atomic.Int64
 	asyncCh := make(chan *dsModels.AsyncValues, 4)
-	d := &Driver{lc: c15Logger{errs: &errs}, asyncCh: asyncCh, svc: c13SDK{},
+	d := &Driver{lc: c20Logger{}, asyncCh: asyncCh, svc: c20SDK{},
 		activeDevices: make(map[string]*LLRPDevice), done: make(chan struct{}), config: &ServiceConfig{}}
 	stopCollect := make(chan struct{})
 	var published atomic.Int64
@@ -52,7 +160,7 @@ func c20Dev(id string, seed int64, ncallers, rounds int) string {
 	}()
 	defer close(stopCollect)
 
-	var readers [2]*c13Reader
+	var readers [2]*c20Reader
 	var pm [2]protocolMap
 	for i := range readers {
 		ln, err := net.Listen("tcp4", "127.0.0.1:0")
@@ -60,7 +168,7 @@ func c20Dev(id string, seed int64, ncallers, rounds int) string {
 			return "!listen"
 		}
 		defer ln.Close()
-		readers[i] = &c13Reader{ln: ln, idx: i, ready: make(chan struct{}), connUTC: 1600000000000000 + uint64(i)}
+		readers[i] = &c20Reader{ln: ln, ready: make(chan struct{})}
 		go readers[i].serve()
 		pm[i] = protocolMap{"tcp": {"host": "127.0.0.1", "port": strconv.Itoa(ln.Addr().(*net.TCPAddr).Port)}}
 	}
@@ -120,7 +228,7 @@ func c20Dev(id string, seed int64, ncallers, rounds int) string {
 		for r := 0; r < rounds*4; r++ {
 			time.Sleep(500 * time.Microsecond)
 			for _, rd := range readers {
-				_ = rd.write(c15Frame(c15MsgKeepAlive, uint32(5000+r), nil))
+				_ = rd.write(c20Frame(62, uint32(5000+r), nil))
 			}
 		}
 	}()
